@@ -303,5 +303,22 @@ func TestC05(t *testing.T) {
 	if ev.Thorough() {
 		dayStep.Exhaustive("every pair of consecutive days of the hot years")
 	}
+	// the 23:00 change-over second on a thin grid over ALL years (one day per month in quick, every day in
+	// thorough): arithmetic that is only wrong in some far-away era shows here
+	for y := 1; y <= 9998; y++ {
+		if !ev.Mine(y) {
+			continue
+		}
+		for m := 1; m <= 12; m++ {
+			for d := 1; d <= 31; d++ {
+				if !ref.ValidDate(y, m, d) || (!ev.Thorough() && d != 1+(y+m)%28) {
+					continue
+				}
+				for _, c := range [][3]int{{22, 59, 59}, {23, 0, 0}, {0, 0, 0}} {
+					pillars.Eval(momentCase{ref.DT{Y: y, M: m, D: d, H: c[0], Mi: c[1], S: c[2]}})
+				}
+			}
+		}
+	}
 	pillars.Rapid(ev.Share(ev.Pick(24000, 600000)), func(t *rapid.T) momentCase { return momentCase{genMoment(t)} })
 }
